@@ -88,14 +88,21 @@ def run(ctx, R):
         opaque_free(R, 'C19.C', p, outs)
         check_rows(R, 'C19.C', p, outs, rows)
         slots += 10
-        # normalised table for the sibling comparison
-        norm = []
-        for o in outs:
-            r = o['ret']
-            variant = {v4: 'A4', v6: 'A6', unk: 'NONE'}.get(r[2], r[2])
-            payload = r[4][0] if r[4] else None
-            norm.append((tuple(sorted(T.short(c) for c in o['pc'])), variant, T.short(payload) if payload else ''))
-        tables[dst] = sorted(norm)
+        # table for the sibling comparison: per tag-pair class, the (renamed) variant and payload
+        norm = {}
+        for cls, cond in (('V4,V4', [('isvar', x, 'V4'), ('isvar', y, 'V4')]), ('V6,V6', [('isvar', x, 'V6'), ('isvar', y, 'V6')]),
+                          ('V4,V6', [('isvar', x, 'V4'), ('isvar', y, 'V6')]), ('V6,V4', [('isvar', x, 'V6'), ('isvar', y, 'V4')])):
+            vals = set()
+            for o in outs:
+                if solver.sat(list(o['pc']) + cond):
+                    r = o['ret']
+                    variant = {v4: 'A4', v6: 'A6', unk: 'NONE'}.get(r[2], r[2]) if r[0] == 'adt' else T.short(r)
+                    payload = r[4][0] if r[0] == 'adt' and r[4] else None
+                    if payload is not None:
+                        payload = T.rebuild(payload, {a: ('param', 0, 'pair')})     # the two impls may name their parameter differently
+                    vals.add((variant, T.short(payload) if payload else ''))
+            norm[cls] = sorted(vals)
+        tables[dst] = norm
     if len(tables) == 2:
         R.inst('C19.X', 'v1-v2-tuple-conversions-agree', tables[V1A] == tables[V2A], expected=str(tables[V1A])[:400],
                found=str(tables[V2A])[:400], entry='From<(SocketAddr, SocketAddr)> v1 vs v2')
